@@ -717,6 +717,33 @@ theorem c03_pmc_structure_as_transcribed :
     C03Tables.processModifiersStrictBody = processModifiersBodyExpected := by decide
 
 open Gozod.Gen in
+/-- **The non-nil branch returns before any modifier field is read** (table fact, regenerated from
+    internal/engine/modifiers.go on every run): `processModifiersCore`'s first statement is
+    `if !isNilInput(input) { return nil, false, nil }` — no initialiser, no else; neither it nor `isNilInput` mentions
+    `internals`, `ctx` or `expectedType`. This is what makes `processModifiers_nonNil` / `ctxStepX_nonNil` (true by
+    `rfl` of the model) statements about the code: the model's non-nil path does not read the modifier state because
+    the real one does not. -/
+theorem c03_pmc_nonnil_returns_first :
+    C03Tables.pmcBranches.head? = some ("if " ++ C03Tables.pmcFirstCond) ∧
+    C03Tables.pmcFirstCond = pmcFirstCondExpected ∧
+    C03Tables.pmcFirstBody = pmcFirstBodyExpected ∧
+    C03Tables.pmcFirstHasElse = false ∧
+    C03Tables.pmcFirstIdents.any stateIdent = false ∧
+    C03Tables.isNilInputIdents.any stateIdent = false := by decide
+
+open Gozod.Gen in
+/-- **Nowhere else in internal/engine does a non-nil parse read a modifier field** — every read site of the regenerated
+    table is after the non-nil return of `processModifiersCore`, under an `isNilInput(input)` conjunct, in
+    `resolveDefault` (whose only caller is `processModifiersCore`), in the schema-building `MergeInternalsState`, or the
+    one listed fast-path test of `ParsePrimitiveStrict` (see `modifierReadAllowed`). A new read on a non-nil path
+    (a modifier leaking into validation) changes the table and stops this theorem. -/
+theorem c03_modifier_reads_off_nonnil_path :
+    (C03Tables.modifierReads.all fun s => modifierReadAllowed s.file s.fn s.field s.kind) = true ∧
+    C03Tables.resolveDefaultCallers = ["processModifiersCore"] ∧
+    (C03Tables.modifierReads.any fun s => s.fn == "processModifiersCore" && s.kind == "pmc-after-nonnil-return") = true := by
+  decide
+
+open Gozod.Gen in
 /-- **Every** schema type of package `types` that declares one of the eight modifier methods is built by the
     harness table (both lists are extracted: the first from the sources, the second by reflection on what the
     table's constructors return). -/
